@@ -1,0 +1,10 @@
+//go:build verif
+// +build verif
+
+package ast
+
+// Thin wrapper (no logic) used by the verification harness in /verif (C08).
+
+func VerifCharAndCountLess(aCount int32, aIndex byte, bCount int32, bIndex byte) bool {
+	return charAndCountArray{{count: aCount, index: aIndex}, {count: bCount, index: bIndex}}.Less(0, 1)
+}
